@@ -117,7 +117,7 @@ def ann_value(ann):
     return ptera.tag.A & ptera.tag.B
 
 
-def run_config(fn, src, recipe, script, config, events):
+def run_config(fn, src, recipe, script, config, events, tevents=None, special=()):
     """config = (mode, instrumented names or None for all, supplies dict)."""
     import ptera
     from ptera import probing
@@ -125,6 +125,8 @@ def run_config(fn, src, recipe, script, config, events):
 
     mode, names, supplies = config[:3]
     decliners = config[3] if len(config) > 3 else []
+    totals = config[4] if len(config) > 4 else []
+    tevents = tevents if tevents is not None else []
     f, glb = PR.load(src)
     target = f
     try:
@@ -142,18 +144,37 @@ def run_config(fn, src, recipe, script, config, events):
                     stack.enter_context(Overlay.rewriting(
                         {ptera.select(f"f > {n}", env={"f": target}): (lambda d: ptera.ABSENT)}, full=False))
             else:
-                for n in names:
+                # probes on ordinary names are entered first (outer), probes on the declared /
+                # undefined names inside them (inner): an error raised under the inner probes is
+                # inspected while the function is still instrumented by the outer ones
+                inner = ExitStack()
+                ordered = [n for n in names if n not in special] + [n for n in names if n in special]
+                for n in ordered:
+                    st_ = inner if n in special else stack
                     if n in supplies:
                         p = probing(f"f > {n}", env={"f": f}, overridable=True)
                         p.override(lambda d, v=supplies[n]: v)
-                        stack.enter_context(p)
+                        st_.enter_context(p)
                         if n in decliners:
                             # a second overridable probe that only observes
                             p2 = probing(f"f > {n}", env={"f": f}, overridable=True)
-                            stack.enter_context(p2.values())
+                            st_.enter_context(p2.values())
+                    elif n in totals:
+                        # a total-mode observer: its record is emitted when the call ends
+                        sink = st_.enter_context(probing(f"f({n})", env={"f": f}, raw=True).values())
+                        tevents.append(sink)
                     else:
-                        sink = stack.enter_context(probing(f"f > {n}", env={"f": f}).values())
+                        sink = st_.enter_context(probing(f"f > {n}", env={"f": f}).values())
                         events.append(sink)
+                with inner:
+                    out = PR.run_call(target, fn, recipe, glb, script)
+                exc = out.get("exc_obj")
+                if type(exc).__name__ == "PteraNameError":
+                    try:
+                        out["info_mid"] = dict(exc.info())
+                    except BaseException as e:  # noqa
+                        out["info_mid"] = {"error": repr(e)}
+                return out, target, glb
             out = PR.run_call(target, fn, recipe, glb, script)
     finally:
         if HY.global_state_problems():
@@ -185,9 +206,10 @@ def check_case(fn, declared, ugs, recipe, script, config, rec=None):
         PR.forget(g2)
     # ---- ptera
     events = []
+    tevents = []
     try:
         with PR.time_limit(3.0):
-            out, target, glb = run_config(fn, src, recipe, script, config, events)
+            out, target, glb = run_config(fn, src, recipe, script, config, events, tevents, set(dnames) | set(ugs))
     except PR.Timeout:
         HY.force_global_clean()
         raise PropertyViolation("hang", f"run under {config!r} did not finish within 3 s\n{src}")
@@ -211,6 +233,9 @@ def check_case(fn, declared, ugs, recipe, script, config, rec=None):
     for sink in events:
         if any(contains_absent(v) for ev in sink for v in ev.values()):
             leaks.append("probe event")
+    for sink in tevents:
+        if any(contains_absent(list(c.values)) for ev in sink for c in ev.values()):
+            leaks.append("total probe record")
     if leaks:
         raise PropertyViolation("absent-leak", f"ptera's ABSENT marker reached user code via: {leaks}; outcome "
                                                f"{out['result']!r}\n{ctxt}", extra={"bucket": "absent-leak"})
@@ -243,6 +268,12 @@ def check_case(fn, declared, ugs, recipe, script, config, rec=None):
                     raise PropertyViolation(
                         "nameerror", f"PteraNameError for {vn}: info() gives provenance={info.get('provenance')!r} "
                                      f"annotation={info.get('annotation')!r}, expected 'body' and {want_ann!r}\n{ctxt}")
+                mid = out.get("info_mid")
+                if mid is not None and (mid.get("provenance") != "body" or mid.get("annotation") != want_ann):
+                    raise PropertyViolation(
+                        "nameerror", f"PteraNameError for {vn} inspected while other probes on the function were still "
+                                     f"active: info() gave {mid!r}, expected provenance 'body' and annotation {want_ann!r}\n{ctxt}",
+                        extra={"bucket": "nameerror-info-mid"})
             elif info.get("provenance") != "external":
                 raise PropertyViolation("nameerror", f"PteraNameError for {vn}: provenance {info.get('provenance')!r}, expected 'external'\n{ctxt}")
     if rec is not None:
@@ -272,7 +303,7 @@ def replay(payload):
     recipe = {k: (v[0], v[1]) for k, v in payload["recipe"].items()}
     script = [tuple(s) for s in payload["script"]]
     cfg = payload["config"]
-    config = (cfg[0], cfg[1], dict(cfg[2]), list(cfg[3]) if len(cfg) > 3 else [])
+    config = (cfg[0], cfg[1], dict(cfg[2]), list(cfg[3]) if len(cfg) > 3 else [], list(cfg[4]) if len(cfg) > 4 else [])
     try:
         check_case(fn, [tuple(d) for d in payload["declared"]], payload["ugs"], recipe, script, config)
     except PropertyViolation as v:
@@ -315,7 +346,8 @@ def strategy():
                 names = [bn[0]] if bn else ["#enter"]
             supplies = {k: v for k, v in supplies.items() if k in names}
         decliners = [n for n in supplies if draw(st.integers(0, 2)) == 0]
-        return fn, declared, ugs, recipe, script, (mode, names, supplies, decliners)
+        totals = [n for n in (names or []) if n not in supplies and n in [d[0] for d in declared] and draw(st.integers(0, 2)) == 0]
+        return fn, declared, ugs, recipe, script, (mode, names, supplies, decliners, totals)
 
     return cases()
 
@@ -339,7 +371,7 @@ def shard(cfg):
         fn, declared, ugs, recipe, script, config = v.case
         res["violations"] = [violation_record(PROPERTY, v, {
             "fn": fn, "declared": [list(d) for d in declared], "ugs": ugs, "recipe": recipe, "script": script,
-            "config": [config[0], config[1], config[2], config[3]], "source": PG.render(fn)})]
+            "config": [config[0], config[1], config[2], config[3], config[4]], "source": PG.render(fn)})]
     if herr:
         res["harness_errors"] = [herr]
     return res
